@@ -46,6 +46,10 @@ for _l in LIGHT_LAYOUTS:
                                  features={'std', 'keccak_160_lsb', 'keccak', 'stone5', 'light_' + _l}, threads=4,
                                  only_modules=['swiftness_air::layout::' + _l])
 
+# C19 (transform.rs part): the core templates provide the verifier-side types; only the cli module is verified in this unit
+UNITS['cli'] = dict(fragments=PRE + [os.path.join(VF, 'prelude', 'cli.rs')] + T('lemmas.rs', 'numth.rs', 'transcript.rs', 'pow.rs', 'commitment.rs', 'fri.rs', 'air.rs', 'stark.rs', 'cli.rs'),
+                    features=DEFAULT_FEATURES, threads=8, only_modules=['swiftness_cli::transform'])
+
 # property -> units per tier, claim text for the manifest
 PROPS = {
     'C01': dict(quick=['core'], thorough=['core'],
@@ -123,6 +127,11 @@ PROPS['C18'] = dict(quick=['core'], thorough=['core'],
     claim='Every index, slice, unwrap/expect, assert!, panic!, integer overflow and zero-divisor site in the functions under contract is a discharged obligation; StarkProof::verify (generic layout) has no precondition beyond a 64-bit usize and a header count below usize::MAX. Interior functions require only what their callers are proved to establish.',
     technique='implicit panic-freedom obligations generated by Verus for every function under contract, interior preconditions discharged along the verified call chain',
     note='Division by the evaluation of a domain polynomial at a Fiat-Shamir point inside the autogenerated evaluators is assumed non-zero (A-fs-nonzero). Layout-specific functions: see evidence for coverage and known findings.')
+
+PROPS['C19'] = dict(quick=['cli'], thorough=['cli'],
+    claim='PART of C19, the conversion step only: every `impl TransformTo` of cli/src/transform.rs (24 impls) is proved to carry each field of the parsed proof to the verifier-side field of the same name with the same non-negative integer value, vectors with the same length and order (config numbers, public input, segments, main page cells, commitments, OODS values, FRI roots / coefficients / leaves, decommitted values, authentication nodes); misfit handling (difficulty > 255, nonce >= 2^64 or 0, dynamic-parameter count, continuous page headers) shows up as failed obligations recorded as known findings.',
+    technique='per-field postconditions on each TransformTo impl + trait-level relation same_as; parser-side struct definitions extracted verbatim from proof_parser/src/stark_proof.rs',
+    note='NOT decided (outside the reach of a deductive verifier here): the JSON / annotation parser itself (serde_json, regex extraction of annotation lines, hex parsing, builtin-name ordering, BTreeMap key order vs field order) -- string and regex code; the proof_parser and cli crates do not even build offline in this sandbox (anyhow / clap / regex are not in the registry), so no bounded stand-in either. Field-element strings >= P are reduced mod P by starknet-types-core (stated as the guard of the clauses).')
 
 # thorough tier: every hash / stone variant of the core unit for the properties whose code is cfg-dependent
 for _p in ('C01', 'C02', 'C04', 'C05', 'C07', 'C09', 'C13', 'C17', 'C18'):
